@@ -2,8 +2,10 @@ package symgo
 
 import (
 	"crypto/sha1"
+
 	"fmt"
 	"go/types"
+	"golang.org/x/tools/go/ssa"
 	"strings"
 )
 
@@ -88,4 +90,41 @@ func init() {
 		return tuple{int64(1700000000) + envClock, int32(0), int64(1000000000) * envClock}
 	}
 	externals["time.now"] = externals["time.runtimeNow"]
+}
+
+func init() {
+	// Go regexps are only used for test-failure formatting (util/assert) and the llm tool; the
+	// regexp package's tables are not initialised in the engine, so compiled patterns are an opaque
+	// nil *Regexp (any use of one would show up as a nil dereference, never silently)
+	externals["regexp.MustCompile"] = func(fr *frame, a []value) value { return (*value)(nil) }
+}
+
+func init() {
+	// builtin.funcName uses runtime.FuncForPC(reflect.ValueOf(f).Pointer()).Name(); the engine knows
+	// the function's name directly (same result: the Go name with a trailing Q/X mapped to ?/!)
+	externals[modPath+"/builtin.funcName"] = func(fr *frame, a []value) value {
+		var name string
+		switch f := a[0].(iface).v.(type) {
+		case *ssa.Function:
+			name = f.Name()
+		case *closure:
+			name = f.Fn.Name()
+		default:
+			panic(unsupported("builtin.funcName of non-function"))
+		}
+		if n := len(name); n > 0 {
+			switch name[n-1] {
+			case 'Q':
+				name = name[:n-1] + "?"
+			case 'X':
+				name = name[:n-1] + "!"
+			}
+		}
+		return name
+	}
+}
+
+func init() {
+	// OS queries made while package builtin initialises (environment: 8 GB of memory)
+	externals[modPath+"/builtin.systemMemory"] = func(fr *frame, a []value) value { return uint64(8 << 30) }
 }
